@@ -259,11 +259,13 @@ def check(repo, run, tier):
     g(r4, repo, run)
     g(r5, repo, run)
     g(unitrules.require_all_new_table, repo, run, 'C08.R6')
+    g(unitrules.removed_root_excepted, repo, run, 'C08.R1')
     g.done()
 
 
 def mutants(repo):
     return [
+        Mutant('removed-root-not-excepted', lambda r: in_func(r, 'ComposedNode.ayns.on_merge_impl', "                    removed.add(path)\n", ""), ['C08.R1']),
         Mutant('require-all-new-skips-self-by-default', lambda r: in_func(r, 'ComposedNode.ayns._require_all_new', "exceptions=None, include_self=True):", "exceptions=None, include_self=False):"), ['C08.R6']),
         Mutant('new-key-check-dropped', lambda r: delete_stmt(r, 'ComposedNode.ayns.on_merge_impl', lambda t: t.startswith('value.ayns._require_all_new')), ['C08.R1']),
         Mutant('leaf-replacement-check-dropped', lambda r: delete_stmt(r, 'ComposedNode.ayns.on_merge_impl', lambda t: t.startswith('possibly_new_child.ayns._require_all_new')), ['C08.R1']),
